@@ -445,9 +445,15 @@ class Driver:
         if h["type"] == "fresh":
             return
         try:
-            self._history(h)
+            if h["type"] == "prestep":
+                # one scripted transition that is (almost surely) accepted, on this very sampler object, before the tested one
+                self.step(h["zpre"], [1e-300] * max(1, self.T.dim))
+            else:
+                self._history(h)
         except NameError:            # legacy ULA refuses (raises) when its own run reaches a NaN value: stay at the fresh state
             self.hist_err = True
+        except Exception as e:       # noqa -- reported by build_case
+            self.hist_exc = "%s: %s" % (type(e).__name__, e)
         self.T.calls.clear()
         self.xi_seen.clear()
 
@@ -840,6 +846,11 @@ def build_case(ctx, spec):
                     signature=(SITES[site]["sig"] + "|refuses-valid-configuration") if fail_ else ""), {"tune_log": []}
     prev_obj = drv.s.current_point if not legacy else None          # keep-alive: the object holding the state before
     drv.history(spec["hist"])
+    if getattr(drv, "hist_exc", None):
+        spec = dict(spec, raised=drv.hist_exc)
+        return Case(expr="true", meta=spec, cell="%s/history-raises" % site, kind="DECISION",
+                    impl_fail="%s history (%s) raised %s" % (site, spec["hist"]["type"], drv.hist_exc),
+                    signature=info["sig"] + "|raises"), {"tune_log": []}
     x0, ld0, gr0 = drv.state()
     if not np.all(np.abs(x0) < 1e4):
         # the unadjusted chain (ULA) diverged during its history run: values of 1e10+ make 1e-9 comparisons meaningless;
@@ -1233,6 +1244,8 @@ def gen_spec(ctx, site, fam, hc, hist, idx, dim=None):
             x0[0] = rng.choice([1.0, 1.5, 1.75])
             steer = True                                     # z[0] is fixed in build_case once state and scale are known
     h = {"type": hist, "seed": rng.randint(0, 10 ** 6), "n": rng.choice([10, 20, 30])}
+    if hist == "prestep":
+        h["zpre"] = [dy(rng, -2, 2, 4) or 0.5 for _ in range(d)]
     if hist == "reload":
         h["scale2"] = scale
         h["x02"] = [dy(rng, -2, 1, 4) for _ in range(d)]
@@ -1298,7 +1311,7 @@ def run(ctx):
                     continue
                 if fam == "quart" and hc not in (None, "star:nan", "star:ninf"):
                     continue
-                for hist in ("fresh", "warmup", "reload"):
+                for hist in ("fresh", "warmup", "reload", "prestep"):
                     if kind == "ula" and SITES[site]["iface"] == "leg" and hist != "fresh" and hc is not None:
                         continue            # legacy ULA raises inside its own sampling loop on NaN
                     reps = n_per if hist == "fresh" else max(1, n_per // 2)
